@@ -14,6 +14,7 @@ so the output equals the implementation's output iff model and code agree.
 import NV.Common.Proto
 import NV.C18.Model
 import NV.C18.Spec
+import NV.C18.OracleTests
 
 namespace NV.C18
 
@@ -257,6 +258,9 @@ def main (mode : String) : IO Unit :=
   match mode with
   | "model" => serve runModel
   | "judge" => serve runJudge
+  | "selftest" =>
+    let bad := (OracleTests.tests.zipIdx.filter (fun p => !p.1)).map (·.2)
+    IO.println (if bad.isEmpty then s!"selftest ok {OracleTests.tests.length}" else s!"selftest FAILED {bad}")
   | _ => IO.eprintln s!"C18: unknown mode {mode}"
 
 end NV.C18
